@@ -145,8 +145,18 @@ def scen_fiber_filter(env, cfg):
         ph = -(b2 * wk * wk / 2 + b3 * wk * wk * wk / 6) * L1
         H.append(env.cx(amp * env.cos(ph), amp * env.sin(ph)))
     exp = _apply(env, S, H)
-    env.check('FIBER == ifft(fft(x) * exp(-alpha\'L/2 - j*beta2*L*w^2/2 - j*beta3*L*w^3/6)) in every polarisation',
-              env.And([env.eq(a, b, scale=3 if env.symbolic else 3000) for ra, rb in zip(ys, exp) for a, b in zip(ra, rb)]))
+    cnd = env.And([env.eq(a, b, scale=3 if env.symbolic else 3000) for ra, rb in zip(ys, exp) for a, b in zip(ra, rb)])
+    if env.symbolic:
+        import z3
+        from vf.core import SB
+        # replay steering only: a corner where the dispersive phases are visible in doubles (wide band, long span, sizeable beta3,
+        # energy outside the DC bin); it affects which counterexample is replayed, never the verdict
+        Rr = fs / 2
+        steer = [(Rr >= 9e10).t, (L1 >= 80).t, z3.Or((b3 >= env.const('0.15')).t, (b3 <= env.const('-0.15')).t),
+                 z3.Or((b2 >= 5).t, (b2 <= -5).t, (b2 == 0).t)] + ([(env.re(S[0][1]) >= 1).t] if n >= 2 else [])
+        if isinstance(cnd, SB):
+            cnd = SB(cnd.t, cnd.rt, z3.And(z3.Not(cnd.t), *steer))
+    env.check('FIBER == ifft(fft(x) * exp(-alpha\'L/2 - j*beta2*L*w^2/2 - j*beta3*L*w^3/6)) in every polarisation', cnd)
     for p, (eo, ei) in enumerate(zip(_energy(env, ys), _energy(env, S))):
         env.check(f'power leaving the fibre = input power * 10^(-alpha*L/10) (polarisation {p})',
                   env.eq(eo, amp * amp * ei, scale=30 if env.symbolic else 30000))
